@@ -214,7 +214,8 @@ def main():
     jobs = []
     for n in range(0, N + 1):
         jobs.append(Job(P + 'VerifC20Restore', (n, 0), cfg=cfg, max_paths=400000))
-    jobs.append(Job(P + 'VerifC20Restore', (2, 1), cfg=cfg, max_paths=100000))
+    for has in (1, 2, 3):
+        jobs.append(Job(P + 'VerifC20Restore', (2, has), cfg=cfg, max_paths=100000))
     jobs.append(Job(P + 'VerifC20Witness', (), witness=True, cfg=cfg, max_paths=100000))
     res = chk.run_jobs(jobs)
     finish(chk, res, t,
